@@ -40,10 +40,14 @@ def prove(ctx, modules, extra_msgs=()):
     ctx.notes.append(f"translator(schedflags): {msgs[0][1]}")
     ctx.notes.append(f"translator(enums): {msgs[1][1]}")
     ctx.notes.append(f"translator(schedsrc): {msgs[2][1]}")
+    from ..translate import schedskeleton
+    msgs.append(schedskeleton.generate(common.REPO, common.LEAN))
+    ctx.notes.append(f"translator(schedskeleton): {msgs[-1][1]}")
+    ctx.extra_cov["schedskeleton_translator"] = dict(schedskeleton.LAST)
     # which decision functions were regenerated from the source text in this run, which fell back on the model's own definition
     ctx.extra_cov["schedsrc_translator"] = dict(schedsrc.LAST)
     # source obligations on JobState / DependencyStatus (Properties/SchedSrc.lean) belong to every scheduler property
-    common.check_proofs(ctx, list(modules) + [m for m in ["XpmVerif.Properties.SchedSrc"] if m not in modules], translate_msgs=msgs)
+    common.check_proofs(ctx, list(modules) + [m for m in ["XpmVerif.Properties.SchedSrc", "XpmVerif.Properties.SchedSkeletonSrc"] if m not in modules], translate_msgs=msgs)
 
 
 def _run_one(args):
@@ -100,6 +104,9 @@ def _explore(args):
                     results.append((events, obs if fails else None, fails))
                     break
                 if len(events) > 400:
+                    # an over-long schedule counts as an enumerated one: under a change that makes starts abort for ever no
+                    # schedule ever completes and the enumeration would otherwise never reach its limit
+                    count += 1
                     results.append((events, None, [("C06", "livelock", "schedule exceeds 400 events")]))
                     break
                 if len(ch) == 1:
